@@ -221,7 +221,8 @@ def mirror(orig, config):
 
 
 def lazy_positions(node, config):
-    """lazy constructs of the original out of which the configuration would hoist something"""
+    """lazy constructs of the original out of which the configuration would hoist something -- at ANY depth
+    below them (the reference reading of configuration and triviality, computed by the mirror)"""
     from malt.pyct.common_transformers import anf
     t = G.SpecConfig(config, anf)
     out = []
@@ -231,15 +232,11 @@ def lazy_positions(node, config):
         elif isinstance(n, ast.Compare) and len(n.ops) > 1:
             out.append(n)
         elif isinstance(n, (ast.BoolOp, ast.IfExp, ast.Lambda)):
-            kids = n.values if isinstance(n, ast.BoolOp) else [n.test, n.body, n.orelse] if isinstance(n, ast.IfExp) else [n.body]
-            fld = {id(c): f for f in n._fields for c in (getattr(n, f) if isinstance(getattr(n, f), list) else [getattr(n, f)])
-                   if isinstance(c, ast.AST)}
-            for c in kids:
-                if not G.spec_trivial(c) and t.should(n, fld[id(c)], c):
-                    out.append(n)
-                    break
+            if G.Mirror(t.should, G.spec_trivial).expr(n)[1]:
+                out.append(n)
         elif isinstance(n, ast.While):
-            if not G.spec_trivial(n.test) and t.should(n, 'test', n.test):
+            if G.Mirror(t.should, G.spec_trivial).expr(n.test)[1] or \
+                    (not G.spec_trivial(n.test) and t.should(n, 'test', n.test)):
                 out.append(n)
     return out
 
@@ -264,17 +261,10 @@ def oracle(src, config, seed, tree=None):
                           unparse(n)))
             break
     if lazies:
-        # accepted although a lazy construct needs hoisting: must have been left untouched
-        keep = {ast.dump(n) for n in lazies}
-        have = {ast.dump(n) for n in ast.walk(out) if isinstance(n, LAZY_TYPES + (ast.Compare,))} | \
-               {ast.dump(n) for n in ast.walk(out) if isinstance(n, ast.While)}
-        stmts_before = True
-        for n in lazies:
-            if isinstance(n, ast.While):
-                continue
-            if ast.dump(n) not in have:
-                fails.append(('lazy', 'a lazy construct that needs hoisting was transformed instead of rejected', unparse(n)))
-                break
+        # accepted although something has to be hoisted out of a lazy construct (its operands would then be
+        # evaluated unconditionally): the property asks for an error
+        fails.append(('lazy', 'a lazy construct out of which the configuration hoists something was accepted instead of rejected',
+                      unparse(lazies[0])))
     for what, detail in shape_failures(orig, out, config, hoisted):
         fails.append(('gensym' if 'temporary' in what else 'shape', what, detail))
     # execution: same result, same events in the same order
@@ -371,9 +361,14 @@ def _programs(run):
         g = G.Gen(rnd, 'model', lazy=0.0, maxdepth=rnd.choice([1, 2, 2, 3]), walrus=0.06)
         cfg, cd = G.gen_config(rnd, anf)
         progs.append(('gensym', G.rename_to_gensym(g.program(depth=rnd.choice([0, 1, 2])), rnd), cfg, cd))
+    # lazy constructs with operands nested 2-3 deep x configurations that name only positions below strict nodes
+    dsel = G.depth_selective_configs(anf)
+    for body in G.DEEP_LAZY_PROGRAMS:
+        for cfg, cd in dsel + [(None, 'default')]:
+            progs.append(('fixed', 'def fn(%s):\n  %s\n' % (', '.join(G.PARAMS), body), cfg, cd))
     for i in range(n_lazy):
-        g = G.Gen(rnd, 'model', lazy=0.25, maxdepth=2)
-        cfg, cd = G.gen_config(rnd, anf)
+        g = G.Gen(rnd, 'model', lazy=0.25, maxdepth=rnd.choice([2, 3]))
+        cfg, cd = dsel[rnd.randrange(len(dsel))] if rnd.random() < 0.5 else G.gen_config(rnd, anf)
         progs.append(('lazy', g.program(nstmts=rnd.randint(1, 2), depth=rnd.choice([0, 1])), cfg, cd))
     return progs
 
